@@ -3,6 +3,7 @@ package c19
 import (
 	"fmt"
 	"os"
+	"regexp"
 	"strings"
 	"testing"
 
@@ -25,6 +26,13 @@ func TestMain(m *testing.M) {
 }
 
 // ---- common ---------------------------------------------------------------
+
+// forcedExcl switches exclusions on in the survey (development) mode, where the witnesses are not run.
+var forcedExcl = map[string]bool{}
+
+func exclOn(tag string) bool { return forcedExcl[tag] || h.ExclOn(tag) }
+
+func excluded(tag string) bool { return forcedExcl[tag] || h.Excluded(tag) }
 
 func marginScope(margin int) *slip.Scope {
 	s := slip.NewScope()
@@ -190,6 +198,18 @@ type CodeCase struct {
 	Args   []int64 `json:"args,omitempty"`
 }
 
+// tagFunctionName: open finding C19-F1, (function f) in compiled code is written as (name f).
+const tagFunctionName = "function-form-named-name"
+
+// noFunctionForm rewrites (function f) to (quote f) while the finding is open; funcall, apply and mapcar take the
+// symbol as well. The number of rewritten draws is counted as excluded.
+func noFunctionForm(src string) string {
+	if strings.Contains(src, "(function ") && excluded(tagFunctionName) {
+		return strings.ReplaceAll(src, "(function ", "(quote ")
+	}
+	return src
+}
+
 func progOpts() proggen.Opts {
 	return proggen.Opts{MaxDepth: 5, MarkOdds: 3, NoValuesInInit: true}
 }
@@ -244,16 +264,22 @@ func genCodeCase(t *rapid.T) CodeCase {
 		c.Src = genDefinition(t)
 	}
 	c.Src = fixMark(c.Src)
+	if c.Kind != "form" {
+		c.Src = noFunctionForm(c.Src)
+	}
 	if c.Src == "nil" {
 		c.Src = "(progn nil)"
 	}
 	return c
 }
 
+// addrRe matches the address in the unreadable rendering of an object, e.g. #<zc1 c0008d4870>.
+var addrRe = regexp.MustCompile(`\b(0x)?[0-9a-f]{8,16}\b([>}])`)
+
 func evalTraced(scope *slip.Scope, src string) string {
 	ev.ResetTrace()
 	o := ev.Eval(scope, src)
-	return outcomeText(o) + " | " + ev.TraceString()
+	return addrRe.ReplaceAllString(outcomeText(o)+" | "+ev.TraceString(), "@$2")
 }
 
 func layoutClasses(src string) (cl []string) {
